@@ -85,12 +85,15 @@ unsafe fn act(cx: &mut Ctx, it: &mut SectionIterator) -> String {
         "class" => format!("class={}", (t.rr_class)(it)),
         "ttl" => format!("ttl={}", (t.rr_ttl)(it)),
         "setttl" => { (t.set_rr_ttl)(it, a[1].parse::<u64>().unwrap() as u32); "ok".into() }
-        "ip" => {
-            let mut g = Guarded::new(16);
-            let mut len: libc::size_t = 16;
+        "ip" | "ipcap" => {
+            // the announced capacity (16 unless given): the length written back must be the address length
+            let cap: usize = if a[0] == "ipcap" { a[1].parse().unwrap() } else { 16 };
+            let mut g = Guarded::new(cap);
+            let mut len: libc::size_t = cap;
             (t.rr_ip)(it, g.ptr(), &mut len);
             if !g.intact() { return "CANARY-BROKEN".into(); }
-            format!("ip={}/{}", hex(&g.data()[..len.min(16)]), len)
+            if len < cap && !g.data()[len..].iter().all(|&x| x == CANARY) { return "WROTE-PAST-ADDRESS".into(); }
+            format!("ip={}/{}", hex(&g.data()[..len.min(cap)]), len)
         }
         "setip" => { let b = unhex(a[1]).unwrap(); (t.set_rr_ip)(it, b.as_ptr(), b.len()); "ok".into() }
         "setrawname" => { let b = unhex(a[1]).unwrap(); let r = (t.set_raw_name)(it, &mut err, b.as_ptr(), b.len()); ret_err(t, r, err) }
